@@ -1499,7 +1499,11 @@ def default_inline_policy(crate):
         new_helper = False
         if n != 1 and not accessor and getattr(crate, "aliases", None) is not None and (f.file or "").startswith("src/") and f.name:
             tab = _anchors()
-            new_helper = bool(tab) and (f.file + "::" + f.name) not in tab and fid not in crate.aliases and len(live) <= 40
+            known_names = crate._cache.get("anchor_names")
+            if known_names is None:
+                known_names = crate._cache["anchor_names"] = {k.rsplit("::", 1)[1] for k in tab}
+            # (a function of the reviewed tree that merely moved to another file keeps its name: rules may refer to it)
+            new_helper = bool(tab) and (f.file + "::" + f.name) not in tab and f.name not in known_names and fid not in crate.aliases and len(live) <= 40
         if n != 1 and not accessor and not new_helper:
             continue
         if any(c.callee and c.callee.target == fid for c in f.all_calls()):
